@@ -238,4 +238,4 @@ LEVEL_NOTE = ("Trusted: Coq kernel, ExtrOcamlBasic extraction, OCaml/C++ glue (p
 TECHNIQUE = "Coq proof of a nested-store model + verified gate deciders; extracted gates judge libvata's views on generated op sequences"
 DESIGN_REF = "DESIGN.md 5/C12"
 EXPLANATION = explain("", "", "")
-READY = False
+READY = True
